@@ -18,6 +18,7 @@ for k in K3.values():
 STATIC = {
     "coverage": {
         "functions_encoded": ["tarpc::context::absolute_to_relative_time::deserialize (through Context's derived Deserialize)",
+                              "tarpc::util::serde::deserialize_io_error_kind_from_u32 (through ServerError's derived Deserialize) on any u32 code",
                               "timer-arming expressions of client::in_flight_requests::InFlightRequests::insert_request and server::in_flight_requests::InFlightRequests::start_request (textual slices) incl. util::TimeUntil / util::MAX_TIMER_DURATION",
                               "rpc.deadline span-field expressions of client::Channel::call and server::BaseChannel::start_request (textual slices) incl. util::wall_clock_deadline and humantime::Rfc3339Timestamp's Display"],
         "outside_claim": ["malformed / truncated frames through LengthDelimitedCodec, real bincode and serde_json decoders on arbitrary bytes (not encodable, DESIGN §1)",
@@ -37,7 +38,10 @@ def main(tier):
     with Scratch(PID) as s:
 
         def real_wire(h, vals):          # K1: [now_s, now_n, secs, nanos, ...]
-            ok, out = replay_test(s, "c16_endpoints", {"VERIF_SECS": str(vals[2]), "VERIF_NANOS": str(vals[3] % 10**9)},
+            # the real endpoints run on the real clock (small uptime): the harness clock is folded
+            # into the duration so that an overflow found at a large `now` is replayed as one
+            secs = min(vals[2] + vals[0], 2**64 - 1)
+            ok, out = replay_test(s, "c16_endpoints", {"VERIF_SECS": str(secs), "VERIF_NANOS": str(vals[3] % 10**9)},
                                   ["decode_context_with_peer_duration", "server_channel_survives_peer_deadline"])
             return {"test": "c16_endpoints (decode + server channel over duplex/bincode)", "secs": str(vals[2]), "reproduced": not ok, "output": out}
 
@@ -52,7 +56,12 @@ def main(tier):
             ok, out = replay_test(s, "c16_endpoints", env, names)
             return {"test": "c16_endpoints::" + names[0], "span_secs": str(secs), "env": env, "reproduced": not ok, "output": out}
 
-        r1, v1, k1, i1, w1 = kprop.decide(PID, tier, s, "wire", W.C16, timeout_s=1800, extra_replay=real_wire)
+        wire_metas = dict(W.C16)
+        # K4: the error-kind code of a response is peer-supplied too (decoded inside the client's dispatch)
+        for k in ("c15_errkind_any_u32_varint", "c15_errkind_any_u32_json"):
+            wire_metas[k] = W.C15[k]
+        r1, v1, k1, i1, w1 = kprop.decide(PID, tier, s, "wire", wire_metas, timeout_s=1800,
+                                          extra_replay=lambda h, v: real_wire(h, v) if h.startswith("c16_") else None)
         # the overlay is injected only now: the external wire crate above was built against the
         # untouched copy
         try:
